@@ -1,9 +1,134 @@
 """C16: environment variables override exactly the existing settings they name."""
+import enum
 import os
+from collections import namedtuple
 
 from .. import coqterm as ct
 from .. import gen_tree as gt
 from ..core import Prop
+
+# ---- the "instance of a SUBCLASS of a builtin" value dimension --------------------------------
+# A leaf of a case tree may be {"__sub__": <class name>, "v": <base value>}: the setting holds an
+# instance of a subclass of list / tuple / int / str whose plain value is <base value> (bool and
+# NoneType cannot be subclassed).  Environment._cast dispatches with isinstance(), so such a setting is
+# converted exactly like its base kind (list/tuple subclasses, namedtuples: rejected; str subclasses:
+# verbatim), except that the last branch old.__class__(new) runs the subclass's constructor.
+
+
+class HostList(list):
+    pass
+
+
+class Pair(tuple):
+    pass
+
+
+class Port(int):
+    pass
+
+
+class Label(str):
+    pass
+
+
+SUB_OF = {list: ["HostList"], tuple: ["Pair", "Endpoint"], int: ["Port", "Color"], str: ["Label", "Mode"]}
+ENUM_SUBS = ("Color", "Mode")      # the class call looks a member up by value
+
+
+def make_sub(cls, base):
+    if cls == "HostList":
+        return HostList(base)
+    if cls == "Pair":
+        return Pair(base)
+    if cls == "Endpoint":       # a namedtuple of the right arity
+        return namedtuple("Endpoint", ["f%d" % i for i in range(len(base))])(*base)
+    if cls == "Port":
+        return Port(base)
+    if cls == "Color":          # IntEnum member
+        return enum.IntEnum("Color", {"M": base})["M"]
+    if cls == "Label":
+        return Label(base)
+    if cls == "Mode":           # str-mixin Enum member (StrEnum-like)
+        return enum.Enum("Mode", {"M": base}, type=str)["M"]
+    raise ValueError(cls)
+
+
+def is_sub(x):
+    return isinstance(x, dict) and set(x.keys()) == {"__sub__", "v"}
+
+
+def decode(x, real):
+    """case JSON -> python tree; subclass markers become instances (real) or their base value"""
+    if is_sub(x):
+        base = gt.unjson(x["v"])
+        return make_sub(x["__sub__"], base) if real else base
+    if isinstance(x, dict):
+        if set(x.keys()) == {"__tuple__"}:
+            return tuple(x["__tuple__"])
+        return {k: decode(v, real) for k, v in x.items()}
+    return x
+
+
+def base_tree(x):
+    return decode(x, False)
+
+
+def sub_leaves(x, pre=()):
+    """(path, class name) of the subclass markers of a case-JSON tree"""
+    if is_sub(x):
+        yield pre, x["__sub__"]
+    elif isinstance(x, dict) and set(x.keys()) != {"__tuple__"}:
+        for k, v in x.items():
+            yield from sub_leaves(v, pre + (k,))
+
+
+def json_at(x, path):
+    for k in path:
+        if not isinstance(x, dict) or is_sub(x) or k not in x:
+            return None
+        x = x[k]
+    return x
+
+
+def json_set(x, path, val):
+    """copy of case-JSON tree x with the node at path replaced"""
+    if not path:
+        return val
+    out = dict(x)
+    out[path[0]] = json_set(x[path[0]], path[1:], val)
+    return out
+
+
+def wrap_choices(base):
+    """the subclass names a base value can be an instance of"""
+    if isinstance(base, bool) or base is None:
+        return []
+    for ty, names in SUB_OF.items():
+        if isinstance(base, ty):
+            return list(names)
+    return []
+
+
+def plain(x):
+    """observation canonicaliser: subclass instances -> the base value they compare equal to"""
+    if hasattr(x, "keys") and callable(x.keys) and hasattr(x, "__getitem__"):
+        return {k: plain(x[k]) for k in x.keys()}
+    if x is None or type(x) in (bool, int, str):
+        return x
+    if isinstance(x, bool):
+        return bool(x)
+    if isinstance(x, int):
+        return int(x)
+    if isinstance(x, str):
+        return "".join(str.__iter__(x))
+    if isinstance(x, list):
+        return [plain(i) for i in x]
+    if isinstance(x, tuple):
+        return tuple(plain(i) for i in x)
+    return x
+
+
+NONNUM = ["", "abc", "1.5", "true", "false", "False", "x y", "no", "off", "None", "-", "0.0"]
 
 VALUES = ["", "0", "1", "5", "-3", "+7", "007", "abc", "1.5", "true", "false", "False", "x y", "no", "off", "00", "None", "-", "0.0"]
 
@@ -123,6 +248,11 @@ class C16(Prop):
                 if rng.random() < 0.2 and not (isinstance(old, int) and not isinstance(old, bool)) \
                         and not isinstance(old, (list, tuple)):
                     env[eff + "_".join(p_).upper()] = rng.choice([" ", " x", "x ", "\t", " 0", "0 "])
+            # 30%: one to three settings hold an instance of a SUBCLASS of list / tuple / int / str
+            # (list subclass, tuple subclass, namedtuple, int subclass, IntEnum member, str subclass,
+            # str-Enum member), in whichever level defines the setting last; its variable is mostly present
+            if rng.random() < 0.3:
+                add_subclass_leaves(rng, case, eff, k=rng.randint(1, 3))
             yield case
 
     def enumerate_small(self, tier):
@@ -142,10 +272,11 @@ class C16(Prop):
             for val in ["0", "x"]:
                 env = {"INVOKE_A_B": val, "INVOKE_A": val, "INVOKE_A_B_B": val}
                 yield {"tree": gt.jsonable(t), "prefix": "invoke", "env": env}
+        yield from subclass_family(tier)
 
     def run_impl(self, case):
         from invoke.config import Config
-        tree = gt.unjson(case["tree"])
+        tree = decode(case["tree"], True)
         prefix = case["prefix"]
         if case.get("prefix_attr") == "prefix":
             class Cfg(Config):
@@ -174,7 +305,7 @@ class C16(Prop):
             os.environ.clear()
             os.environ.update(case["env"])
             try:
-                more = [gt.unjson(m) for m in case.get("more", [])]
+                more = [decode(m, True) for m in case.get("more", [])]
                 merge_now = not case.get("deferred", False)
                 if len(more) >= 1 or case.get("history"):
                     cfg.load_collection(more[0] if more else {}, merge=merge_now)
@@ -195,7 +326,7 @@ class C16(Prop):
                 cfg.load_shell_env()
             except Exception as e:
                 return {"err": type(e).__name__}
-            return {"ok": gt.jsonable(gt.deep_view(cfg._env)), "view": gt.jsonable(gt.deep_view(cfg))}
+            return {"ok": gt.jsonable(plain(cfg._env)), "view": gt.jsonable(plain(cfg))}
         finally:
             os.environ.clear()
             os.environ.update(saved)
@@ -203,7 +334,7 @@ class C16(Prop):
     def to_coq(self, case, obs):
         env = ct.lst([ct.pair(ct.s(k), ct.s(v)) for k, v in case["env"].items()])
         o = ct.result(obs, lambda d: ct.tree(gt.unjson(d)))
-        more = ct.lst([ct.tree(gt.unjson(m)) for m in case.get("more", [])])
+        more = ct.lst([ct.tree(base_tree(m)) for m in case.get("more", [])])
         mods = {}
         for pth, val in case.get("mods", []):
             d = mods
@@ -217,13 +348,13 @@ class C16(Prop):
                 d = d.setdefault(k, {})
             d[pth[-1]] = None
         view = ct.opt(ct.tree(gt.unjson(obs["view"]))) if "view" in obs else "None"
-        return "(mk %s %s %s %s %s %s %s %s)" % (ct.tree(gt.unjson(case["tree"])), more, ct.tree(mods), ct.tree(dels),
+        return "(mk %s %s %s %s %s %s %s %s)" % (ct.tree(base_tree(case["tree"])), more, ct.tree(mods), ct.tree(dels),
                                                ct.s(case["prefix"]), env, o, view)
 
     def nontrivial(self, case, obs):
-        t = gt.unjson(case["tree"])
+        t = base_tree(case["tree"])
         for m in case.get("more", []):
-            t = merge_py(t, gt.unjson(m))
+            t = merge_py(t, base_tree(m))
         eff = case["prefix"].upper() + "_"
         names = [eff + "_".join(p).upper() for p, _ in gt.leaf_paths(t)]
         return len(set(names)) < len(names) or any(nm in case["env"] for nm in names)
@@ -232,12 +363,20 @@ class C16(Prop):
         lv = "levels:%d%s%s%s " % (1 + len(case.get("more", [])), "(deferred)" if case.get("deferred") else "",
                                    "+edits" if case.get("mods") or case.get("dels") else "",
                                    "+history" if case.get("history") else "")
+        subs = sorted({cls for lvl in [case["tree"]] + case.get("more", []) for _p, cls in sub_leaves(lvl)})
+        if subs:
+            lv += "subclass:" + ",".join(subs) + " "
         return lv + ("err:" + obs["err"] if "err" in obs else
                      ("applied:%d" % min(3, len(list(gt.leaf_paths(gt.unjson(obs["ok"])))))))
 
     def shrink_candidates(self, case):
         t = case["tree"]
         env = case["env"]
+        for pth, _cls in sub_leaves(t):
+            yield dict(case, tree=json_set(t, pth, json_at(t, pth)["v"]))
+        for i, m in enumerate(case.get("more", [])):
+            for pth, _cls in sub_leaves(m):
+                yield dict(case, more=case["more"][:i] + [json_set(m, pth, json_at(m, pth)["v"])] + case["more"][i + 1:])
         for k in list(env):
             e2 = dict(env)
             del e2[k]
@@ -265,6 +404,81 @@ class C16(Prop):
             else:
                 env["INVOKE_" + rng.choice(["A", "A_B", "B"])] = rng.choice(VALUES)
             yield dict(case, env=env)
+        # the value-class dimension: every leaf of the defaults level as an instance of each subclass of its
+        # kind (and every subclass leaf as the plain builtin), its variable present
+        eff = case["prefix"].upper() + "_"
+        shadow = [case.get("more", []), case.get("mods", []), case.get("dels", []), case.get("history", [])]
+        t = case["tree"]
+        leaves = list(gt.leaf_paths(base_tree(t)))
+        rng.shuffle(leaves)
+        for pth, old in leaves[:6]:
+            cur = json_at(t, pth)
+            var = eff + "_".join(pth).upper()
+            if is_sub(cur):
+                yield dict(case, tree=json_set(t, pth, cur["v"]))
+            for cls in wrap_choices(old):
+                vals = NONNUM if cls == "Color" else VALUES
+                env = dict(case["env"])
+                env[var] = env[var] if var in env and env[var] in vals else rng.choice(vals)
+                c2 = dict(case, tree=json_set(t, pth, {"__sub__": cls, "v": gt.jsonable(old)}), env=env)
+                yield c2
+                if any(shadow):
+                    yield {k: v for k, v in c2.items() if k not in ("more", "mods", "dels", "history", "deferred")}
+
+
+def add_subclass_leaves(rng, case, eff, k=1):
+    """wrap up to k leaves of the merged configuration into subclass markers, in the last level that
+    defines them (paths touched by runtime edits are left alone); set their variables"""
+    levels = [case["tree"]] + case.get("more", [])
+    full = base_tree(levels[0])
+    for lv in levels[1:]:
+        full = merge_py(full, base_tree(lv))
+    edited = [tuple(m[0]) for m in case.get("mods", [])] + [tuple(d) for d in case.get("dels", [])]
+    cands = [(p_, v) for p_, v in gt.leaf_paths(full)
+             if p_ and wrap_choices(v) and not any(p_[:len(q)] == q or q[:len(p_)] == p_ for q in edited)]
+    rng.shuffle(cands)
+    # list/tuple settings first half of the time (the rejected kinds are the rarer leaves)
+    if rng.random() < 0.5:
+        cands.sort(key=lambda pv: not isinstance(pv[1], (list, tuple)))
+    for p_, v in cands[:k]:
+        cls = rng.choice(wrap_choices(v))
+        for i in range(len(levels) - 1, -1, -1):
+            cur = json_at(levels[i], p_)
+            if cur is not None and not (isinstance(cur, dict) and "__tuple__" not in cur):
+                levels[i] = json_set(levels[i], p_, {"__sub__": cls, "v": cur})
+                break
+        else:
+            continue
+        var = eff + "_".join(p_).upper()
+        if cls == "Color":
+            # an IntEnum setting is only ever given non-numeric text (see `assumptions`)
+            if var in case["env"] or rng.random() < 0.8:
+                case["env"][var] = rng.choice(NONNUM)
+        elif rng.random() < 0.8:
+            case["env"].setdefault(var, rng.choice(VALUES + ["db1", "web1,web2"]))
+    case["tree"] = levels[0]
+    if len(levels) > 1:
+        case["more"] = levels[1:]
+
+
+def subclass_family(tier):
+    """every subclass kind x position (top level / nested / beside an ordinary setting) x a few values,
+    variable present or absent"""
+    bases = {"HostList": [["web1", "web2"], []], "Pair": [("a", "b")], "Endpoint": [("localhost", "22"), ()],
+             "Port": [22, 0], "Color": [1], "Label": ["old", ""], "Mode": ["fast"]}
+    values = ["db1", "", "0", "5"] if tier == "quick" else ["db1", "", "0", "5", "-3", "fast", "old", "1.5", "web1"]
+    for cls, bs in bases.items():
+        for b_ in bs:
+            leaf = {"__sub__": cls, "v": gt.jsonable(b_)}
+            for val in values:
+                if cls == "Color" and val not in NONNUM and val != "db1":
+                    continue
+                yield {"tree": {"hosts": leaf, "n": 1}, "prefix": "invoke", "env": {"INVOKE_HOSTS": val, "INVOKE_N": "2"}}
+                yield {"tree": {"deploy": {"hosts": leaf}, "n": 1}, "prefix": "invoke",
+                       "env": {"INVOKE_DEPLOY_HOSTS": val, "INVOKE_N": "2"}}
+                yield {"tree": {"n": 1}, "more": [{"deploy": {"hosts": leaf}}], "deferred": val == "",
+                       "prefix": "", "env": {"_DEPLOY_HOSTS": val}}
+            yield {"tree": {"hosts": leaf, "n": 1}, "prefix": "invoke", "env": {"INVOKE_N": "2", "HOSTS": "x"}}
 
 
 def same_kind(rng, v):
@@ -330,14 +544,14 @@ def merge_py(a, b):
 
 
 def shrink_tree(t):
-    if not isinstance(t, dict) or "__tuple__" in t:
+    if not isinstance(t, dict) or "__tuple__" in t or is_sub(t):
         return
     for k in list(t):
         t2 = dict(t)
         del t2[k]
         yield t2
     for k, v in t.items():
-        if isinstance(v, dict) and "__tuple__" not in v:
+        if isinstance(v, dict) and "__tuple__" not in v and not is_sub(v):
             for v2 in shrink_tree(v):
                 t2 = dict(t)
                 t2[k] = v2
